@@ -862,10 +862,18 @@ struct LifecycleEngine : Engine
 			p.cfg["capb"] = rng.pick(std::vector<int64_t>{1530, 1600});
 			p.cfg["lat"] = rng.pick(std::vector<int64_t>{1000000, 3000000});
 			p.cfg["accept_write"] = int64_t(rng.range(1, 2));
+			if (rng.chance(0.4))
+			{
+				// a short greeting through a queue that holds it alone but not next to the SYN-ACK: dropped once, and small enough to be sent again at once
+				// whenever the retransmission comes round - also after the connection has gone
+				p.cfg["capb"] = rng.pick(std::vector<int64_t>{150, 160});
+				p.cfg["accept_write"] = 3;
+			}
 			add("listen", 0, 0, 0, 0);
 			add("accept", int64_t(rng.below(3)), 0, 0, 0);
 			add("connect", 0, 0, 0, 1000);
-			add("read", k_nc + 0, 0, 0, rng.pick(std::vector<int64_t>{7000000, 30000000}));
+			// (the read starts once the connection is certainly there: the slowest route takes 34 ms one way)
+			add("read", k_nc + 0, 0, 0, rng.pick(std::vector<int64_t>{7000000, 30000000, 60000000}));
 			add("close", 0, 0, 0, rng.pick(std::vector<int64_t>{1000000, 7000000, 30000000}));
 		}
 		else if (cls < 0.50 && cls >= 0.40)
